@@ -4,6 +4,8 @@ from __future__ import annotations
 import random
 from fractions import Fraction
 
+import numpy as np
+
 
 def factor_box(rng: random.Random, total: int, maxdim: int = 3):
     """dims of a box with exactly `total` rows, 1..maxdim dimensions"""
@@ -53,7 +55,7 @@ def dyadic_row(rng, n, denom=8, p_zero=0.3, p_det=0.15):
 
 
 def gen_spec(rng: random.Random, S=None, A=None, E=None, kind="random", R=None, denom=8, smax=12, maxdim=3,
-             zero_in_box=None, init=None, initpol=None, prob_as_array=None, adim=2, edim=2):
+             zero_in_box=None, init=None, initpol=None, prob_as_array=None, adim=2, edim=2, near_tie=None):
     S = S or rng.randint(1, smax)
     A = A or rng.choice([1, 2, 2, 3, 4, 4, 4, 6])
     E = E or rng.randint(1, 4)
@@ -137,6 +139,25 @@ def gen_spec(rng: random.Random, S=None, A=None, E=None, kind="random", R=None, 
         for s in range(S):
             nxt[s][a1] = list(nxt[s][a0]); rew[s][a1] = list(rew[s][a0]); prob[s][a1] = list(prob[s][a0])
         tags.append("dup-action")
+    if A > 1 and (near_tie or (near_tie is None and rng.random() < 0.15)):
+        # near-tie: a copy of one action at a LOWER index whose rewards are smaller by R/2^18 (a relative gap of a few 1e-6, far above
+        # rounding and far below any sensible "close enough" tolerance scaled by the values); exact arithmetic must prefer the better one
+        a_hi = rng.randrange(1, A)
+        a_lo = rng.randrange(a_hi)
+        d = R / 2 ** 18
+        for s in range(S):
+            nxt[s][a_lo] = list(nxt[s][a_hi]); prob[s][a_lo] = list(prob[s][a_hi])
+            rew[s][a_lo] = [x - d for x in rew[s][a_hi]]
+        tags.append("near-tie")
+    # reward dtype returned by `transition`: float64 (default), or int32 / float32 when every reward is exactly representable
+    rew_dtype = "float64"
+    flat = [x for a in rew for row in a for x in row]
+    u = rng.random()
+    if u < 0.15 and all(float(x).is_integer() and abs(x) < 2 ** 31 for x in flat):
+        rew_dtype = "int32"
+    elif u < 0.3 and all(float(np.float32(x)) == float(x) for x in flat):
+        rew_dtype = "float32"
+    tags.append("rew-" + rew_dtype)
     if init is None:
         init = rng.random() < 0.3
     if initpol is None:
@@ -146,7 +167,7 @@ def gen_spec(rng: random.Random, S=None, A=None, E=None, kind="random", R=None, 
     spec = dict(smins=smins, smaxs=smaxs, amins=amins, amaxs=amaxs, emins=emins, emaxs=emaxs, nxt=nxt, rew=rew, prob=prob,
                 init=[float(rng.randint(-R, R)) for _ in range(S)] if init else None,
                 initpol=[rng.randrange(A) for _ in range(S)] if initpol else None,
-                prob_as_array=prob_as_array)
+                prob_as_array=prob_as_array, rew_dtype=rew_dtype)
     spec["_tags"] = tags + [f"S{S}", f"A{A}", f"E{E}", f"sdim{len(smins)}", f"adim{len(amins)}", f"edim{len(emins)}",
                             "zero-in-box" if all(a <= 0 <= b for a, b in zip(smins, smaxs)) else "zero-outside-box",
                             "init" if init else "noinit", "initpol" if initpol else "noinitpol", f"R{R}",
